@@ -365,3 +365,8 @@ if __name__ == '__main__':
     e = generate(repo, os.path.join(here, 'coq', 'Gen', 'ManagerGen.v'))
     if e:
         sys.stderr.write('pytrans: translator refused: %s\n' % e)
+    sys.path.insert(0, os.path.dirname(os.path.abspath(__file__)))
+    import pytrans_schema
+    e = pytrans_schema.generate(repo, os.path.join(here, 'coq', 'Gen', 'SchemaGen.v'))
+    if e:
+        sys.stderr.write('pytrans_schema: translator refused: %s\n' % e)
